@@ -291,4 +291,112 @@ Proof.
 Qed.
 
 
+Ltac is_step H Hk :=
+  repeat rewrite (is_hd _ _ _ _ H); rewrite ?Hk;
+  cbn [tkind_eqb tkind_code N.eqb Pos.eqb orb andb negb kin existsb].
+
+Definition skip_sh (l : list sh) : bool := forallb (fun s => kin (fst s) [NEWLINE; INDENT; COMMENT]) l.
+Lemma skip_toks ts l : Forall2 tmatch ts l -> skip_sh l = true ->
+  Forall (fun x => kin (tk x) [NEWLINE; INDENT; COMMENT] = true /\ tk x <> EOF) ts.
+Proof.
+  induction 1 as [|t s ts l [Hk _] _ IH]; intros Hs; [constructor|].
+  cbn [skip_sh forallb] in Hs. apply andb_prop in Hs. destruct Hs as [H1 H2].
+  constructor; [|apply IH; exact H2]. rewrite Hk. split; [exact H1|]. intros E. rewrite E in H1. discriminate H1.
+Qed.
+Lemma skip_sh_app a b : skip_sh (a ++ b) = skip_sh a && skip_sh b.
+Proof. apply forallb_app. Qed.
+Lemma skip_indent D : skip_sh (indent_sh D) = true.
+Proof. destruct D; reflexivity. Qed.
+
+Lemma scalar_kind v s t : sval_of v = Some s -> tmatch t (sval_sh s) -> kin (tk t) [NULL; BOOLEAN; NUMBER; STRING] = true.
+Proof. intros _ [Hk _]. rewrite Hk. destruct s; reflexivity. Qed.
+
+Lemma fuel_of_ge st ts r : ptoks st = ts ++ r -> (length ts <= fuel_of st)%nat.
+Proof. intros H. rewrite (fuel_of_toks _ _ H), app_length. lia. Qed.
+
+Lemma plloop_body pre2 postlast : skip_sh pre2 = true -> skip_sh postlast = true ->
+  forall items pre f acc st ts r,
+  skip_sh pre = true -> forallb is_scalar items = true -> Forall num_ok_v items ->
+  (length items + 2 <= f)%nat ->
+  Forall2 tmatch ts (body_sh pre2 postlast pre items) -> r <> [] ->
+  ptoks st = ts ++ r ->
+  exists st' tE ts0, plloop f acc st = POk (rev acc ++ items) st' /\ ts = ts0 ++ [tE] /\ tk tE = LIST_END /\
+                     ptoks st' = tE :: r /\ moved (length ts0) st st'.
+Proof.
+  intros Hpre2 Hpl. induction items as [|x xs IH]; intros pre f acc st ts r Hpre Hsc Hnum Hf Hts Hr Hst.
+  - cbn [body_sh] in Hts. apply Forall2_app_inv_r in Hts. destruct Hts as (tsp & tse & Htsp & Htse & ->).
+    inversion Htse as [|tE ? ? ? [HEk _] Hnil]; subst. inversion Hnil; subst. cbn [fst] in HEk.
+    destruct f as [|f]; [lia|]. rewrite plloop_eq. cbv zeta.
+    rewrite <- app_assoc in Hst. cbn [app] in Hst.
+    destruct (skip_many [NEWLINE; INDENT; COMMENT] tsp st tE r (fuel_of st) Hst (skip_toks _ _ Htsp Hpre)) as (st1 & Hs & Hp & Hm);
+      [rewrite HEk; reflexivity|exact (fuel_of_ge _ _ _ Hst)|].
+    rewrite Hs. clear Hs. unfold ck. rewrite (cur_hd _ _ _ Hp), HEk. cbn [kin existsb tkind_eqb tkind_code N.eqb Pos.eqb orb].
+    exists st1, tE, tsp. rewrite app_nil_r. repeat split; try assumption; apply Hm.
+  - cbn [forallb] in Hsc. apply andb_prop in Hsc. destruct Hsc as [Hx Hxs].
+    inversion Hnum as [|? ? Hnx Hnxs]; subst.
+    unfold is_scalar in Hx. destruct (sval_of x) as [sv|] eqn:Esv; [|discriminate Hx].
+    unfold TokRound.num_ok_v in Hnx. rewrite Esv in Hnx.
+    cbn [body_sh] in Hts. apply Forall2_app_inv_r in Hts. destruct Hts as (tsp & ts1 & Htsp & Hts1 & ->).
+    rewrite (vsh_sval _ _ Esv) in Hts1. cbn [app] in Hts1. inversion Hts1 as [|tx ? ts2 ? Hx1 Hts2]; subst.
+    destruct f as [|[|[|f]]]; cbn [length] in Hf; try lia.
+    rewrite plloop_eq. cbv zeta.
+    rewrite <- app_assoc in Hst. rewrite <- app_comm_cons in Hst.
+    destruct (skip_many [NEWLINE; INDENT; COMMENT] tsp st tx (ts2 ++ r) (fuel_of st) Hst (skip_toks _ _ Htsp Hpre)) as (st1 & Hs & Hp & Hm);
+      [pose proof (scalar_kind _ _ _ Esv Hx1) as K; destruct (tk tx); try discriminate K; reflexivity|exact (fuel_of_ge _ _ _ Hst)|].
+    rewrite Hs. clear Hs. unfold ck. rewrite (cur_hd _ _ _ Hp).
+    assert (K1 : kin (tk tx) [LIST_END; EOF; ENVELOPE_END] = false)
+      by (pose proof (scalar_kind _ _ _ Esv Hx1) as K; destruct (tk tx); try discriminate K; reflexivity).
+    rewrite K1.
+    destruct xs as [|y ys].
+    + (* last item *)
+      apply Forall2_app_inv_r in Hts2. destruct Hts2 as (tpl & tse & Htpl & Htse & ->).
+      inversion Htse as [|tE ? ? ? [HEk _] Hnil]; subst. inversion Hnil; subst. cbn [fst] in HEk.
+      rewrite <- app_assoc in Hp. cbn [app] in Hp.
+      destruct tpl as [|tp tpl'].
+      * cbn [app] in Hp.
+        rewrite (plitem_scalar _ _ _ _ _ Hp (scalar_kind _ _ _ Esv Hx1)); [|rewrite HEk; reflexivity].
+        rewrite (pv_scalar2 _ _ _ _ _ sv Hp Hx1); [|rewrite HEk; reflexivity|exact Hnx].
+        cbn [bind]. pose proof (adv_toks _ _ _ _ Hp) as H2.
+        is_step H2 HEk. rewrite (sval_of_val _ _ Esv).
+        exists (adv st1), tE, (tsp ++ [tx]). cbn [rev]. rewrite <- !app_assoc. cbn [app].
+        split; [reflexivity|]. split; [reflexivity|]. split; [assumption|]. split; [assumption|].
+        rewrite app_length. cbn [length]. eapply moved_trans; [exact Hm|exact (moved_adv _ _ _ _ Hp)].
+      * assert (Kp : kin (tk tp) [NEWLINE; INDENT; COMMENT] = true).
+        { pose proof (skip_toks _ _ Htpl Hpl) as Fp. inversion Fp as [|? ? [Kp _] _]. exact Kp. }
+        cbn [app] in Hp.
+        rewrite (plitem_scalar _ _ _ _ _ Hp (scalar_kind _ _ _ Esv Hx1)); [|destruct (tk tp); try discriminate Kp; reflexivity].
+        rewrite (pv_scalar2 _ _ _ _ _ sv Hp Hx1); [|destruct (tk tp); try discriminate Kp; reflexivity|exact Hnx].
+        cbn [bind]. pose proof (adv_toks _ _ _ _ Hp) as H2.
+        rewrite (is_hd _ _ _ COMMA H2), (is_hd _ _ _ LIST_END H2), (is_hd _ _ _ EOF H2).
+        assert (K2 : tkind_eqb (tk tp) COMMA = false /\ tkind_eqb (tk tp) LIST_END = false /\ tkind_eqb (tk tp) EOF = false)
+          by (destruct (tk tp); try discriminate Kp; repeat split).
+        destruct K2 as (-> & -> & ->).
+        destruct (IH postlast (S (S f)) (x :: acc) (adv st1) ((tp :: tpl') ++ [tE]) r Hpl eq_refl (Forall_nil _)) as (st' & tE' & ts0 & Hl & Ets & HE' & Hp' & Hm');
+          [cbn [length]; lia| |exact Hr|rewrite H2, <- app_assoc; reflexivity|].
+        { cbn [body_sh]. apply Forall2_app; [exact Htpl|]. constructor; [split; [exact HEk|exact I]|constructor]. }
+        apply app_inj_tail in Ets. destruct Ets as [<- <-].
+        rewrite (sval_of_val _ _ Esv), Hl.
+        exists st', tE, (tsp ++ tx :: tp :: tpl'). cbn [rev]. rewrite <- !app_assoc. cbn [app].
+        split; [reflexivity|]. split; [reflexivity|]. split; [assumption|]. split; [assumption|].
+        rewrite app_length. cbn [length]. replace (S (S (length tpl'))) with (1 + length (tp :: tpl'))%nat by reflexivity.
+        eapply moved_trans; [exact Hm|]. eapply moved_trans; [exact (moved_adv _ _ _ _ Hp)|exact Hm'].
+    + (* more items follow: COMMA *)
+      inversion Hts2 as [|tc ? ts3 ? [Hck _] Hts3]; subst. cbn [fst] in Hck.
+      cbn [app] in Hp.
+      rewrite (plitem_scalar _ _ _ _ _ Hp (scalar_kind _ _ _ Esv Hx1)); [|rewrite Hck; reflexivity].
+      rewrite (pv_scalar2 _ _ _ _ _ sv Hp Hx1); [|rewrite Hck; reflexivity|exact Hnx].
+      cbn [bind]. pose proof (adv_toks _ _ _ _ Hp) as H2.
+      is_step H2 Hck.
+      assert (Hne : exists t3 r3, ts3 ++ r = t3 :: r3) by (destruct r; [congruence|]; destruct ts3; cbn [app]; eauto).
+      destruct Hne as (t3 & r3 & E3). rewrite E3 in H2. pose proof (adv_toks _ _ _ _ H2) as H3. rewrite <- E3 in H3.
+      destruct (IH pre2 (S (S f)) (x :: acc) (adv (adv st1)) ts3 r Hpre2 Hxs Hnxs) as (st' & tE & ts0 & Hl & Ets & HE & Hp' & Hm');
+        [cbn [length] in *; lia|exact Hts3|exact Hr|exact H3|].
+      rewrite (sval_of_val _ _ Esv), Hl. subst ts3.
+      exists st', tE, (tsp ++ tx :: tc :: ts0). cbn [rev]. rewrite <- !app_assoc. cbn [app].
+      split; [reflexivity|]. split; [reflexivity|]. split; [assumption|]. split; [assumption|].
+      rewrite app_length. cbn [length]. replace (S (S (length ts0))) with (1 + (1 + length ts0))%nat by reflexivity.
+      eapply moved_trans; [exact Hm|]. eapply moved_trans; [exact (moved_adv _ _ _ _ Hp)|].
+      eapply moved_trans; [exact (moved_adv _ _ _ _ H2)|exact Hm'].
+Qed.
+
 End Core2.
